@@ -40,6 +40,7 @@ import (
 //	merge e f                     e.Merge(f)                         (Node.Merge: kinds, then Properties.Merge; nodes only)
 //	rmerge e f                    e.Merge(f)                         (Relationship.Merge; relationships only)
 //	addk e A,_,B | delk e A,B     Node.AddKinds / Node.DeleteKinds   (_ = nil Kind, AddKinds only; nodes only)
+//	strip e a,b | strip e -       Node.StripAllPropertiesExcept(keys...)                     (nodes only)
 //	drv e                         what the pg batch update builders send for entity e (nodes only):
 //	                              NodeUpdateParameters.Append and LargeNodeUpdateRows.Append must agree; answer
 //	                              `u kinds=<ids> dkinds=<ids> props=<map> dprops=<set>`
@@ -634,6 +635,26 @@ func (r *c12Runner) Step(t []string, raw string) string {
 		return r.withDump("ok")
 	case t[0] == "drv" && len(t) == 2:
 		return r.withDump(r.drv(n))
+	case t[0] == "strip" && len(t) == 3:
+		var keep []string
+		if t[2] != "-" {
+			keep = strings.Split(t[2], ",")
+		}
+		st.Inc("branch.strip")
+		for _, k := range keep {
+			if has(p.Deleted, k) {
+				st.Inc("branch.strip.kept_deleted_key")
+			} else if p.Exists(k) {
+				st.Inc("branch.strip.kept_present_key")
+			} else {
+				st.Inc("branch.strip.kept_absent_key")
+			}
+		}
+		if len(p.Map) > len(keep) {
+			st.Inc("branch.strip.drops_keys")
+		}
+		n.StripAllPropertiesExcept(keep...)
+		return r.withDump("ok")
 	}
 	return "bad-op"
 }
@@ -834,11 +855,11 @@ func (c12Suite) Gen(rng *Rng, tier string, w *bufio.Writer, stats *Stats) {
 	full := []string{
 		"set 0 a 2", "set 1 a 3", "set 0 a 0", "set 1 b 4", "setall 0 a:1,c:5", "setall 1 nil", "del 0 a", "del 1 a", "del 0 c", "del 1 b",
 		"gd 0 a 5", "gf 0 c 5 d,a", "clone 0 1", "clone 1 0", "pmerge 0 1", "pmerge 1 0", "pmerge 0 0", "merge 0 1", "merge 1 0",
-		"addk 0 A", "addk 0 C", "addk 1 C,_", "delk 0 A", "delk 1 A", "delk 0 C", "delk 1 B,C", "drv 0",
+		"addk 0 A", "addk 0 C", "addk 1 C,_", "delk 0 A", "delk 1 A", "delk 0 C", "delk 1 B,C", "drv 0", "strip 0 a,c",
 	}
 	propsOnly := []string{
 		"set 0 a 2", "set 1 a 3", "set 0 b 0", "setall 1 a:1,c:5", "del 0 a", "del 1 a", "del 1 c",
-		"clone 0 1", "pmerge 0 1", "pmerge 1 0", "merge 1 0",
+		"clone 0 1", "pmerge 0 1", "pmerge 1 0", "merge 1 0", "strip 0 a", "strip 1 b,c",
 	}
 	relOnly := []string{
 		"set 0 a 2", "set 1 a 3", "set 0 b 0", "setall 1 a:1,c:5", "del 0 a", "del 1 a", "del 1 c",
@@ -949,7 +970,18 @@ func (c12Suite) Gen(rng *Rng, tier string, w *bufio.Writer, stats *Stats) {
 			case x < 20:
 				ops = append(ops, fmt.Sprintf("delk %d %s", e, c12PickKinds(rng, false, true)))
 			case x < 21:
-				ops = append(ops, fmt.Sprintf("drv %d", e))
+				if rng.Chance(1, 3) {
+					keep := "-"
+					if rng.Chance(5, 6) {
+						keep = Pick(rng, c12Keys)
+						if rng.Bool() {
+							keep += "," + Pick(rng, c12Keys)
+						}
+					}
+					ops = append(ops, fmt.Sprintf("strip %d %s", e, keep))
+				} else {
+					ops = append(ops, fmt.Sprintf("drv %d", e))
+				}
 			default:
 				switch {
 				case isRel && rng.Chance(2, 3):
